@@ -7,7 +7,7 @@ PID = "C20"
 CATS = ["Float", "Int", "Shaped", "Num", "Bool", "Float32", "Inexact", "Integer", {"user": ["float32", "int8"]}, {"user": ["float16"]}]
 DIMS = ["", "a", "a b", "_ b", "... b", "*v", "a *v b", "#a 3", "a+1", "_", "...", "2 3", "d=a b", "*#v c", "?n"]
 ARRS = ["np", "np", "any", "jax", "union", "dup1", "dup2"]
-ROUTES = ["pickle", "cloudpickle", "copy", "deepcopy", "pickle-sub", "cloudpickle-sub"]
+ROUTES = ["pickle", "cloudpickle", "copy", "deepcopy", "pickle-sub", "cloudpickle-sub", "pickle-reload-after-use"]
 
 
 def write_support(d):
@@ -128,8 +128,8 @@ def main():
         R.violation("proof", "proof obligations of props/C20.v no longer check: " + str(R.broken_proof)[-800:],
                     {"theorem_file": "coq/props/C20.v", "log": R.broken_proof}, no_input=not any(v["kind"] == "property" for v in R.violations))
     R.coverage.update(evaluations=nev, distinct_nontrivial=len(nontriv), samples=samples,
-                      rule="%d annotations (10 categories incl. two user categories importable by name x array types ndarray / Any / jax.Array / Union / two classes named `Tensor` from different modules x 15 dim strings, 45%% nested one or two levels) x 6 routes "
-                           "(pickle, cloudpickle, copy, deepcopy in-process; pickle and cloudpickle loaded in a fresh interpreter), each on a freshly built annotation; %d batches (several annotations dumped, then all loaded in one process and in a fresh one: nested annotation + flat twin with the same display name, same-named array classes). "
+                      rule="%d annotations (10 categories incl. two user categories importable by name x array types ndarray / Any / jax.Array / Union / two classes named `Tensor` from different modules x 15 dim strings, 45%% nested one or two levels) x 7 routes "
+                           "(pickle, cloudpickle, copy, deepcopy in-process; pickle and cloudpickle loaded in a fresh interpreter; a second pickle load after the first loaded copy was used as the return annotation of a decorated generator function), each on a freshly built annotation; %d batches (several annotations dumped, then all loaded in one process and in a fresh one: nested annotation + flat twin with the same display name, same-named array classes). "
                            "Oracle independent of the model: verdict vector over %d probe values of original-before == reloaded == original-after." % (len(annots), len(batches), outs[0]["nprobes"]))
     R.assumptions += ["pickle / cloudpickle / copy machinery itself is CPython's / third-party: modelled"]
     sys.exit(R.finish())
